@@ -213,3 +213,14 @@ func VerifHeaderPoolDup() (n, dup int) {
 	}
 	return len(hs), dup
 }
+
+// VerifResetLazyGlobals empties the package-level tables that are filled on first use (the scalar scratch pools by
+// element width), so that every execution - and every program of the free-running race pass - starts cold and goes
+// through the first-use paths again.
+func VerifResetLazyGlobals() {
+	scalarRCLock.Lock()
+	for k := range scalarRC {
+		delete(scalarRC, k)
+	}
+	scalarRCLock.Unlock()
+}
